@@ -182,7 +182,7 @@ def mutate(rng, s):
 def gen_cases(run):
     rng = run.rng
     cases = []
-    n = 1 if run.tier == 'quick' else 6
+    n = 1 if run.tier == 'quick' else 12
     small = [0, 1, 2, 7, 23, 24, 59, 60, 61, 100]
     fracs = ['5', '25', '125', '0625', '015625', '000', '1', '3', '999', '04', '9996', '123456']
     for _ in range(700 * n):
